@@ -20,6 +20,7 @@
 From Coq Require Import List String Bool ZArith QArith Permutation Floats.PrimFloat.
 From PAFCommon Require Import PyFloat.
 From PAFC20 Require Import Gen Model Proofs1 Proofs2 Proofs3 Proofs4 Proofs5 Witness.
+From PAFC20 Require Machine Proofs6 Witness6.
 Import ListNotations.
 Open Scope list_scope.
 
@@ -320,3 +321,54 @@ Print Assumptions C20_per_leaf_f64.
 Print Assumptions C20_defined_f64.
 Print Assumptions C20_order_free_f64.
 Print Assumptions C20_run_hypotheses_f64.
+
+(* ---------- one interpolator object used many times (Machine.v) ----------
+   The object holds the series (`instances`, a public attribute; the constructor keeps the caller's list) and a cache
+   of earlier answers under an arbitrary policy `hit stored current`.  For EVERY sound policy (a hit implies equal
+   fresh answers) every query of every history -- changes of the series, repeated queries, queries on other variables,
+   queries that raise -- answers what a fresh interpolator over the current series answers. *)
+Theorem C20_history_independent :
+  forall (V : Type) (leb eqb : V -> V -> bool) (ofZ : Z -> V) (interp : list V -> list V -> V -> option V) (mk : V -> tree V)
+         (assign : bool)
+         (hit : Proofs6.iseries V * Proofs6.iquery V -> Proofs6.iseries V * Proofs6.iquery V -> bool),
+  Machine.sound (Proofs6.iseries V) (Proofs6.iquery V) (outcome V) (Proofs6.fresh_answer V leb eqb ofZ interp mk assign) hit ->
+  forall (s0 : Proofs6.iseries V) (ops : list (Machine.op (Proofs6.iseries V) (Proofs6.iquery V))),
+  Machine.run (Proofs6.iseries V) (Proofs6.iquery V) (outcome V) (Proofs6.fresh_answer V leb eqb ofZ interp mk assign) hit
+              (Machine.init (Proofs6.iseries V) (Proofs6.iquery V) (outcome V) s0) ops
+  = Machine.expected (Proofs6.iseries V) (Proofs6.iquery V) (outcome V) (Proofs6.fresh_answer V leb eqb ofZ interp mk assign) s0 ops.
+Proof. exact Proofs6.interp_history_independent. Qed.
+
+(* the last query of any history depends on the series set last and on the query only *)
+Theorem C20_last_query_fresh :
+  forall (V : Type) (leb eqb : V -> V -> bool) (ofZ : Z -> V) (interp : list V -> list V -> V -> option V) (mk : V -> tree V)
+         (assign : bool)
+         (hit : Proofs6.iseries V * Proofs6.iquery V -> Proofs6.iseries V * Proofs6.iquery V -> bool),
+  Machine.sound (Proofs6.iseries V) (Proofs6.iquery V) (outcome V) (Proofs6.fresh_answer V leb eqb ofZ interp mk assign) hit ->
+  forall (s0 s : Proofs6.iseries V) (before : list (Machine.op (Proofs6.iseries V) (Proofs6.iquery V))) (q : Proofs6.iquery V),
+  Machine.run (Proofs6.iseries V) (Proofs6.iquery V) (outcome V) (Proofs6.fresh_answer V leb eqb ofZ interp mk assign) hit
+              (Machine.init (Proofs6.iseries V) (Proofs6.iquery V) (outcome V) s0) (before ++ [Machine.OSet s; Machine.OAsk q])
+  = Machine.run (Proofs6.iseries V) (Proofs6.iquery V) (outcome V) (Proofs6.fresh_answer V leb eqb ofZ interp mk assign) hit
+                (Machine.init (Proofs6.iseries V) (Proofs6.iquery V) (outcome V) s0) before
+    ++ [Proofs6.fresh_answer V leb eqb ofZ interp mk assign s q].
+Proof. exact Proofs6.interp_last_query_fresh. Qed.
+
+(* the code as it is (no cache: _value_map is rebuilt by every __getitem__) is a sound policy *)
+Theorem C20_code_policy_sound :
+  forall (V : Type) (leb eqb : V -> V -> bool) (ofZ : Z -> V) (interp : list V -> list V -> V -> option V) (mk : V -> tree V)
+         (assign : bool),
+  Machine.sound (Proofs6.iseries V) (Proofs6.iquery V) (outcome V) (Proofs6.fresh_answer V leb eqb ofZ interp mk assign)
+                Machine.never_hit.
+Proof. exact Proofs6.interp_code_policy_sound. Qed.
+
+(* memoising by the value alone (any path), or by path and value while the series is changed, is refuted *)
+Theorem C20_cache_by_value_refuted :
+  exists s0 ops, Witness6.run6 Witness6.hit_by_value s0 ops <> Witness6.expected6 s0 ops.
+Proof. exact Witness6.cache_by_value_refuted. Qed.
+Theorem C20_cache_ignoring_series_refuted :
+  exists s0 ops, Witness6.run6 Witness6.hit_by_query s0 ops <> Witness6.expected6 s0 ops.
+Proof. exact Witness6.cache_ignoring_series_refuted. Qed.
+Print Assumptions C20_history_independent.
+Print Assumptions C20_last_query_fresh.
+Print Assumptions C20_code_policy_sound.
+Print Assumptions C20_cache_by_value_refuted.
+Print Assumptions C20_cache_ignoring_series_refuted.
